@@ -3,3 +3,4 @@ import Model.Diag
 import Model.Slice
 import Model.Num
 import Model.Bonferroni
+import Model.DepGraph
